@@ -113,47 +113,44 @@ OBL_FILE = os.path.join('Splipy', 'Generated', 'C20Obligations.lean')
 
 
 def extra_obligations(sp, lean_dir):
-    """Build the source-derived obligations module; one result per theorem in it."""
-    import re
+    """Build the source-derived obligations module (`lake build Splipy.Generated.C20Obligations`);
+    one result per theorem in it: {'name', 'ok', 'class', 'detail', 'axioms'}."""
     info = _GEN['info'] or regenerate(sp, lean_dir)
     names = leanproof.theorems_in(OBL_FILE)
     if not names:
-        return [{'name': 'C20Obligations', 'ok': False, 'class': None, 'detail': 'no theorems found in ' + OBL_FILE}]
+        return [{'name': 'C20Obligations', 'ok': False, 'class': None, 'detail': 'no theorems found in ' + OBL_FILE, 'axioms': None}]
     ok, log, secs = leanproof.lake_build([OBL_MODULE])
-    src = open(os.path.join(lean_dir, OBL_FILE), encoding='utf-8').read().splitlines()
-    starts = {}
-    for i, ln in enumerate(src, 1):
-        m = re.match(r'theorem\s+([A-Za-z_][\w\.\']*)', ln)
-        if m:
-            starts[m.group(1)] = i
-    order = sorted(starts.items(), key=lambda kv: kv[1])
     failed = {}
-    if not ok:
-        errs = [(int(m.group(1)), m.group(2)) for m in
-                re.finditer(r'error: [^\n:]*C20Obligations\.lean:(\d+):\d+: ([^\n]*(?:\n(?!error:|warning:|trace:)[^\n]*){0,3})', log)]
-        for ln_no, msg in errs:
-            owner = None
-            for nm, st in order:
-                if st <= ln_no:
-                    owner = nm
-            failed.setdefault(owner or names[0], []).append(' '.join(msg.split())[:300])
-        if not failed:   # the module failed for a reason that is not a theorem of its own (import, syntax)
-            failed = {nm: ['module does not build: ' + log[-400:]] for nm in names}
-    axioms = leanproof.print_axioms(OBL_MODULE, names) if ok else {}
+    axioms = {}
+    if ok:
+        axioms = leanproof.print_axioms(OBL_MODULE, names)
+    else:
+        # the module as a whole does not build: check every theorem on its own, so that each
+        # obligation gets its own verdict (and the ones that still hold, their axiom list)
+        per = _check_each(lean_dir, names)
+        if per is None:
+            failed = {nm: 'module does not build: ' + log[-400:] for nm in names}
+        else:
+            for nm in names:
+                good, ax, msg = per.get(nm, (False, None, 'theorem not found'))
+                if good:
+                    axioms[nm] = ax
+                else:
+                    failed[nm] = msg
     offending = [w for w in info['write_sites'] if w[0] != state_translate.STATE_FILE]
     out = []
     for nm in names:
-        good = ok or nm not in failed
-        detail = '' if good else '; '.join(failed.get(nm, []))
+        good = nm not in failed
+        detail = failed.get(nm, '')
         cls = None
         if nm == 'C20_state_restores':
             cls = K_STATE
-            detail = (detail + ' | translated program: %r' % (info['prog'],))[:600]
+            detail = (detail + ' | translated program: %r' % (info['prog'],))[:700]
         elif nm == 'C20_no_other_writes':
             if offending and all(w[0] == 'io/g2.py' and w[2] == 'parametric_absolute_tolerance' for w in offending):
                 cls = K_G2
-            detail = (detail + ' | write sites outside state.py: %r' % (offending,))[:600]
-        if ok:
+            detail = (detail + ' | write sites outside state.py: %r' % (offending,))[:700]
+        if good:
             ax = axioms.get(nm)
             if ax is None:
                 good, detail = False, 'theorem did not check'
@@ -161,6 +158,54 @@ def extra_obligations(sp, lean_dir):
                 good, detail = False, 'axioms: ' + ','.join(ax)
         out.append({'name': nm, 'ok': bool(good), 'class': cls, 'detail': detail, 'axioms': axioms.get(nm)})
     return out
+
+
+def _check_each(lean_dir, names):
+    """Elaborate each theorem of the obligations file separately (header + that theorem +
+    `#print axioms`).  Returns {name: (ok, axioms, message)} or None if the imports do not build."""
+    import re
+    import subprocess
+    import concurrent.futures as cf
+    from vlib.model import _lean_env
+    src = open(os.path.join(lean_dir, OBL_FILE), encoding='utf-8').read()
+    code = leanproof.strip_comments(src)
+    m0 = re.search(r'^theorem\s', code, flags=re.M)
+    if not m0:
+        return None
+    header = code[:m0.start()]
+    imports = re.findall(r'^import\s+(\S+)', header, flags=re.M)
+    okb, _, _ = leanproof.lake_build(imports)
+    if not okb:
+        return None
+    by_name = {}
+    for ch in re.split(r'^(?=theorem\s)', code[m0.start():], flags=re.M):
+        mm = re.match(r"theorem\s+([A-Za-z_][\w\.']*)", ch)
+        if mm:
+            by_name[mm.group(1)] = ch
+
+    def one(nm):
+        txt = header + by_name[nm] + '\n#print axioms %s\n' % nm
+        with tempfile.NamedTemporaryFile('w', suffix='.lean', delete=False, dir=tempfile.gettempdir()) as f:
+            f.write(txt)
+            path = f.name
+        try:
+            r = subprocess.run(['lean', path], cwd=lean_dir, env=_lean_env(), stdout=subprocess.PIPE,
+                               stderr=subprocess.STDOUT, text=True, timeout=600)
+        finally:
+            os.unlink(path)
+        out = r.stdout
+        ax = None
+        m = re.search(r"'%s' depends on axioms: \[([^\]]*)\]" % re.escape(nm), out, flags=re.S)
+        if m:
+            ax = sorted(a.strip() for a in m.group(1).replace('\n', ' ').split(',') if a.strip())
+        elif re.search(r"'%s' does not depend on any axioms" % re.escape(nm), out):
+            ax = []
+        good = r.returncode == 0 and 'error' not in out and ax is not None
+        msg = ' '.join(out.replace(path, '<obligation>').split())[:400]
+        return nm, (good, ax, msg)
+
+    with cf.ThreadPoolExecutor(max_workers=4) as ex:
+        return dict(ex.map(one, [n for n in names if n in by_name]))
 
 
 # ---------------------------------------------------------------------------------------------
@@ -691,7 +736,18 @@ def generate(rng, tier):
     specs += _gen_monitor(rng, tier)
     specs += _gen_vertexdict(rng, tier)
     specs += _gen_basis_cases(rng, tier)
-    return specs
+    # the driver reports the first few failing inputs of a run: put the minimal experiment of every
+    # class of global-state / configuration experiment first so that each one gets its own replay
+    head = []
+    for pick in (lambda s: s['kind'] == 'state_nest' and _raise_inside_with(s['block']),
+                 lambda s: s['kind'] == 'monitor' and s['call'] == 'io.g2.read:synthetic-bounded-surface',
+                 lambda s: s['kind'] == 'model_vertices' and s['frac'] < 1,
+                 lambda s: s['kind'] == 'model_vertices' and s['frac'] > 1 and s['tol'] < 1e-9):
+        for i, s in enumerate(specs):
+            if pick(s):
+                head.append(specs.pop(i))
+                break
+    return head + specs
 
 
 # ---------------------------------------------------------------------------------------------
